@@ -140,6 +140,31 @@ func (c *Ctx) buildTypeBatches(sel shapeSel) []TypeBatch {
 			batches = append(batches, b)
 		}
 	}
+	// small packages of their own for types whose treatment may depend on what the goderive process
+	// saw before them (same-named types of different packages in either order)
+	if sel.ExtraTypes != nil {
+		for si := 0; si < len(soloTypeSets(pgen.NewStd(pgen.NewUniverse("p")))); si++ {
+			u := pgen.NewUniverse("p")
+			std := pgen.NewStd(u)
+			bi := len(batches)
+			b := TypeBatch{Name: fmt.Sprintf("%s-solo%02d", strings.ToLower(c.Prop), si), U: u}
+			for _, t := range soloTypeSets(std)[si] {
+				if sel.KeepShape != nil && !sel.KeepShape(t) {
+					continue
+				}
+				it := pgen.TItem{T: t, Tags: append([]string{"form:top", "origin:solo"}, t.Features()...)}
+				it.Ops = sel.Ops(t, "top")
+				if len(it.Ops) == 0 {
+					continue
+				}
+				it.ID = fmt.Sprintf("I%02dx%03d", bi, len(b.Items))
+				b.Items = append(b.Items, it)
+			}
+			if len(b.Items) > 0 {
+				batches = append(batches, b)
+			}
+		}
+	}
 	// two items of one package must not ask the same plugin for mutually assignable types under
 	// different names (goderive rejects that as a duplicate by design)
 	dedupeBatches(batches)
@@ -195,6 +220,16 @@ func (c *Ctx) buildTypeBatchesMulti(sel shapeSel, opSets func(t *pgen.Type) [][]
 // underlying type goes wrong exactly there), embedded structs, types with derived Equal/Compare
 // methods, named bool / uint8, and types from two imported packages with the same name (the second
 // one gets a file-local alias in derived.gen.go).
+// soloTypeSets: each set becomes a package of its own (see buildTypeBatches).
+func soloTypeSets(s *pgen.Std) [][]*pgen.Type {
+	return [][]*pgen.Type{
+		{pgen.Ptr(s.SM1)},            // fields: c/dup.T (flat) before a/dup.T and b/dup.T
+		{pgen.Ptr(s.SM2)},            // fields: b/dup.T before c/dup.T (flat) before []a/dup.T
+		{s.XDupC, pgen.Ptr(s.XDupA)}, // two items: the flat T first
+		{pgen.Ptr(s.XDupB), s.XDupC}, // the flat T last
+	}
+}
+
 func commonExtras(s *pgen.Std) []*pgen.Type {
 	return []*pgen.Type{s.NSlice, s.NMap, s.NArr, s.NPtr, pgen.Ptr(s.NSlice), pgen.Slice(s.NSlice), pgen.Map(pgen.B("string"), s.NMap),
 		s.SE, pgen.Ptr(s.SE), s.SEq, pgen.Slice(s.SEq), s.NBool, pgen.Slice(s.NBool), s.NU8, pgen.Slice(s.NU8),
